@@ -286,6 +286,9 @@ func discharge(obls []*Obl, outDir string, secs int, par int) {
 // qfCandidates enables the search for candidate counterexamples on weakened queries.
 var qfCandidates = true
 
+// instFirst: try the instantiated quantifier-free weakening of a query before the full query.
+var instFirst = true
+
 func dischargeFlat(obls []*Obl, outDir string, secs int, par int) {
 	var wg sync.WaitGroup
 	sem := make(chan struct{}, par)
@@ -302,7 +305,7 @@ func dischargeFlat(obls []*Obl, outDir string, secs int, par int) {
 		}
 		i, o := i, o
 		// scripts are built sequentially (term tables are not thread safe)
-		var script, script2 string
+		var script, script2, scriptInst string
 		var mnames []string
 		if o.ExpectSat {
 			// vacuity check over the quantifier-free assumptions (models of quantified formulas are
@@ -320,10 +323,29 @@ func dischargeFlat(obls []*Obl, outDir string, secs int, par int) {
 			roots := []*Term{o.Reach, goalSk}
 			as := coneOfInfluence(o.Assume, roots)
 			as = append(as, groundInstances(append(append([]*Term{}, as...), o.Reach), []*Term{goalSk})...)
+			if debugInst {
+				fmt.Printf("inst: %s: %d assumptions after COI + instances\n", o.Name, len(as))
+			}
 			mts, ns := modelTermsOf(o.Inputs)
 			mnames = ns
 			goal := expandExists(goalSk, append(append([]*Term{}, as...), o.Reach))
 			script = Script(append(as, o.Reach), goal, true, mts)
+			if !hasQuantifier(goal, map[*Term]bool{}) && instFirst {
+				// the same query without the quantified hypotheses (their ground instances stay): if this
+				// weaker query is already unsat the obligation is discharged, and the solvers answer it fast
+				var qf []*Term
+				nq := 0
+				for _, a := range as {
+					if hasQuantifier(a, map[*Term]bool{}) {
+						nq++
+						continue
+					}
+					qf = append(qf, a)
+				}
+				if nq > 0 {
+					scriptInst = Script(append(qf, o.Reach), goal, false, nil)
+				}
+			}
 			if !hasQuantifier(goal, map[*Term]bool{}) {
 				var qf []*Term
 				nq := 0
@@ -345,6 +367,23 @@ func dischargeFlat(obls []*Obl, outDir string, secs int, par int) {
 			defer wg.Done()
 			defer func() { <-sem }()
 			file := filepath.Join(outDir, fmt.Sprintf("%03d_%s.smt2", i, sanitize(o.Name)))
+			if scriptInst != "" {
+				t := secs / 3
+				if t > 10 {
+					t = 10
+				}
+				if t < 2 {
+					t = 2
+				}
+				r0 := race(scriptInst, file+".inst.smt2", t)
+				if !debugInst {
+					os.Remove(file + ".inst.smt2")
+				}
+				if r0.verdict == "unsat" {
+					o.Status, o.Solver, o.Ms = "discharged", r0.solver+"+inst", r0.ms
+					return
+				}
+			}
 			res := race(script, file, secs)
 			o.Solver, o.Ms = res.solver, res.ms
 			if o.ExpectSat {
